@@ -30,6 +30,16 @@ var repoDir = "/repo"
 
 var replayTemplates = []*replayTemplate{
 	{
+		name: "dial_retry.go.tmpl",
+		match: func(o *Obligation) bool {
+			return o.Kind == "post" && (o.Func == "(*internal/core.dialer).dial" || o.Func == "(*internal/core.dialer).Dial") && strings.Contains(o.Note, "!d.active")
+		},
+		run: func(g *Gen, o *Obligation, model map[string]string) (bool, string) {
+			// fixed history: synchronous Dial to a dead port twice on one dialer
+			return runReplay("transport/tcp", "dial_retry.go.tmpl", map[string]string{}, "TestZZReplayDialRetry")
+		},
+	},
+	{
 		name: "req_stale_retry_timer.go.tmpl",
 		match: func(o *Obligation) bool {
 			return strings.HasPrefix(o.Name, "site:(*protocol/req.socket).send:before:call:AfterFunc#1")
